@@ -1,6 +1,7 @@
 package main
 
 import (
+	"sort"
 	"fmt"
 	"go/types"
 	"strings"
@@ -358,4 +359,22 @@ func eq(a, b string) string {
 		return "true"
 	}
 	return "(= " + a + " " + b + ")"
+}
+
+// sortedAllocs: deterministic iteration order over sets of local cells (source position, then name)
+func sortedAllocs[T any](m map[*ssa.Alloc]T) []*ssa.Alloc {
+	out := make([]*ssa.Alloc, 0, len(m))
+	for a := range m {
+		out = append(out, a)
+	}
+	sort.Slice(out, func(i, j int) bool {
+		if out[i].Pos() != out[j].Pos() {
+			return out[i].Pos() < out[j].Pos()
+		}
+		if out[i].Comment != out[j].Comment {
+			return out[i].Comment < out[j].Comment
+		}
+		return out[i].Name() < out[j].Name()
+	})
+	return out
 }
